@@ -414,7 +414,15 @@ def _snap(x, k):
     return f
 
 
+def _is_num(x):
+    return isinstance(x, (int, float)) and not isinstance(x, bool) and x == x and abs(x) != float('inf')
+
+
 def _num_reply(x, k=0):
+    if not _is_num(x):
+        # a changed implementation may return anything (None for '', inf, a string): an outcome the model never
+        # gives - the lines differ, the oracle judges (FRAMEWORK.md: total on whatever the code under test returns)
+        return 'ok n' if x is None else f'ok other:{type(x).__name__}'
     f = _snap(x, k)
     return f'ok f{f.numerator}/{f.denominator}'
 
@@ -424,6 +432,14 @@ def _comparable(x, k):
     if k == 0:
         return abs(x) < 2 ** 53        # integers are exact below 2^53
     return Fraction(1, 10 ** k) > 64 * Fraction(math.ulp(x))
+
+
+def _uncomparable(r, k):
+    """a numeric result the exact-rational model cannot be compared with (too fine for a double, inf, nan);
+    anything that is not a number IS compared: the lines will differ and the oracle judges"""
+    if not isinstance(r, (int, float)) or isinstance(r, bool):
+        return False
+    return not _is_num(r) or not _comparable(r, k)
 
 
 def _call(fn, *args):
@@ -445,7 +461,7 @@ def run_impl(scn):
         if kind == 'convert':
             text = op[1]
             k, r = _call(convert, text)
-            if k == 'ret' and not _comparable(r, _fracdepth(text)):
+            if k == 'ret' and _uncomparable(r, _fracdepth(text)):
                 # (only mutated strings get here) finer than the double can resolve: oracle only
                 obs.append(('ret', r, type(r).__name__))
                 tags.append('convert:ok:not-compared')
@@ -464,7 +480,7 @@ def run_impl(scn):
         elif kind == 'period':
             v = op[1]
             k, r = _call(time_period, v)
-            if k == 'ret' and isinstance(v, str) and not _comparable(r, _fracdepth(v)):
+            if k == 'ret' and isinstance(v, str) and _uncomparable(r, _fracdepth(v)):
                 obs.append(('ret', r, type(r).__name__))
                 tags.append('period:str:not-compared')
                 continue
